@@ -14,7 +14,7 @@ func init() {
 	props["C09"] = &propInfo{Level: "other", Explanation: "Decides structural necessary conditions of 'a transport failure terminates every blocked operation with a non-OK status': (R09.1) every blocking select in mpx and rpc has a case on a channel that the connection/channel teardown closes or signals - a Wait()/ReadWait()/WriteWait()/ReceiveWait() obtained from a field of the connection or channel state (closed flag, channel context, receive queue, write queue) or from a routine/future - the caller's context parameter alone does not count because conn.close does not cancel it; (R09.2) close is total: past the idempotence check conn.close calls ctx.Cancel, the socket Close, closed.Set, writeq.Close, closeChannels, delegate.onConnClosed and notifyClosed on every path (deferred calls included); conn.run defers close and free; channelState.close cancels the channel context and closes the receive queue; closeChannels removes and frees the remaining channels; (R09.3) connReader.read returns a non-nil frame only after both io.ReadFull calls succeeded; (R09.4) failures are never turned into success: on the failing edge of every st.OK() test and every err != nil test in mpx and rpc, a returned status is not OK (provenance lattice), and mpxError maps a non-nil error to a non-OK status; (R09.5) clientConns.roundRobin returns only connections whose Closed() flag is unset. Not decided: bounded time, goroutine release, reconnection after the fault.",
 		Trusted: []string{"closing/cancelling the listed sources wakes their waiters (dependency semantics of async.Flag, async.Context, bytequeue)", "status provenance lattice (see C11)"}}
 
-	register(&Rule{ID: "R09.1", Props: []string{"C09"}, Floor: 8,
+	register(&Rule{ID: "R09.1", Props: []string{"C09", "C04"}, Floor: 8,
 		Doc: "every blocking select has a teardown-driven exit",
 		Run: runR09_1})
 	register(&Rule{ID: "R09.2", Props: []string{"C09", "C20"}, Floor: 10,
